@@ -4,6 +4,10 @@ function split(input, delimiter)
     return arr
 end
 
+if ( not obj.annotations )
+then
+    obj.annotations = {}
+end
 annotations = obj.annotations
 annotations["nginx.ingress.kubernetes.io/canary"] = "true"
 annotations["nginx.ingress.kubernetes.io/canary-by-cookie"] = nil
